@@ -5,9 +5,8 @@
 
    [bits_of] maps a key identity to its Kademlia identifier; [kwf] says a key
    carries the identifier of its identity; [pb] is prefixBits, [bs] batchSize.
-   [keys_ok ks] = the keys of ONE Put/Delete call are well formed and pairwise
-   distinct.  The distinctness is a real restriction: the code's in-call dedup
-   map is keyed by a pointer and never hits (see c20_put_duplicate_refuted). *)
+   [keys_ok ks] = the keys of a Put/Delete call are well formed; a call may name
+   the same key several times ([new_of] / the `seen` map keep the first one). *)
 From Verif.Lib Require Import GoSem Bits.
 From Verif.Model Require Import Keystore ResetKeystore.
 From Verif.Proofs Require Import KeystoreProofs ResetKeystoreProofs.
@@ -101,22 +100,12 @@ Proof.
 Qed.
 Print Assumptions c20_crash_keeps_acknowledged.
 
-(* 8. REFUTED without the distinctness hypothesis: one Put call naming the same
-   new key twice returns it twice and counts it twice (keystore.go:292,301: the
-   `seen` map is keyed by bit256.Key, a struct holding a pointer).  Replayed on
-   the real code by the harness: finding "seen-map-never-dedups". *)
 Definition c20_k (i : N) : mhk := {| mbits := kb 4 i; mid := i |}.
-Theorem c20_put_duplicate_refuted :
-  exists ks, let (s', r) := ks_put 0 ks_new ks NoFault in
-    r = Some [c20_k 5; c20_k 5] /\ k_size s' = 2%Z /\ stored s' = [c20_k 5].
-Proof. exists [c20_k 5; c20_k 5]. vm_compute. repeat split. Qed.
-Print Assumptions c20_put_duplicate_refuted.
 
 (* ===================== part 2: the resettable keystore ==================== *)
-(* [ev_ok]: Put keys well formed and distinct within a call, supplied keys well
-   formed, no repeated key inside one chunk written with altPutChecked (same
-   broken dedup map, see c20_reset_duplicate_size_refuted), and the marker
-   write does not fail (see c20_marker_write_fails_refuted). *)
+(* [ev_ok]: the keys of Puts and the supplied keys are well formed.  Nothing else:
+   keys may repeat, any datastore call of the reset may fail (EStartFail, EAbort,
+   EAbortClean, EFlipFail), the caller may cancel or Close at any moment. *)
 
 (* 9. Reset is atomic under every interleaving and at every crash point: for
    every list of events of the worker and the ResetCids goroutine (concurrent
@@ -157,80 +146,70 @@ Theorem c20_reset_live_exact :
 Proof. exact live_exact. Qed.
 Print Assumptions c20_reset_live_exact.
 
-(* 12. Error injection, PARTIAL.  Theorems 9-11 already cover a failing
-   datastore call in opStart (EStartFail), in phases A-C (EAbort) and in the
-   final drain / altDs.Sync of opCleanup (EAbortClean).  Not modelled, hence not
-   proved (covered only by the Go-side oracle of the harness): a failing marker
-   Sync, a failing call inside the teardown, a failing call of a concurrent Put.
-   The remaining case, a failing marker WRITE, is false of the code: *)
-Definition c20_marker_fail_events : list revent :=
-  [EPutBegin [c20_k 1]; EPutCommit; EPutSync;
-   EStart [c20_k 2]; EStartDone; EKey; EAltWrite true [c20_k 2]; EAltSync; ECount;
-   ECleanup; ECleanSync; EFlipFail; EMarkSync; EDel [dkey 0 (c20_k 1)]; ETearSync].
-Theorem c20_marker_write_fails_refuted :
-  exists s, rrun 0 (ropen []) c20_marker_fail_events = Some s /\
-    r_old s = [c20_k 1] /\ r_new s = [c20_k 2] /\ r_synced s = length (r_j s) /\
-    reopen_keys (r_j s) = [] /\ reopen_size (r_j s) = 0%Z.
-Proof. eexists. split; [vm_compute; reflexivity|]. vm_compute. repeat split. Qed.
-Print Assumptions c20_marker_write_fails_refuted.
+(* 12. Error injection: whichever datastore call of the reset fails -- in opStart
+   (EStartFail), in phases A-C (EAbort), in the final drain or the altDs.Sync of
+   opCleanup (EAbortClean), or the write of the active-namespace marker itself
+   (EFlipFail) -- at every crash point afterwards a reopened keystore holds the
+   complete OLD set with the acknowledged puts, with matching size.
+   PARTIAL in one respect: a failing marker Sync, a failing call inside the
+   teardown and a failing datastore call of a concurrent Put are not modelled
+   (they are exercised against the Go-side oracle of the harness only). *)
+Theorem c20_error_injection :
+  forall bits_of pb evs s s' e n,
+    Forall (ev_ok bits_of) evs -> rrun pb (ropen []) evs = Some s ->
+    fault_event e -> rstep pb s e = Some s' ->
+    r_synced s' <= n <= length (r_j s') ->
+    let j' := firstn n (r_j s') in
+    NoDup (map mid (reopen_keys j')) /\ reopen_size j' = Z.of_nat (length (reopen_keys j')) /\
+    holds (r_old s) s' (reopen_keys j').
+Proof. exact error_injection. Qed.
+Print Assumptions c20_error_injection.
 
-(* 13. REFUTED without the "no repeated key in a checked chunk" hypothesis: the
-   same key put twice between phase B and the final drain is counted twice by
-   altPutChecked, so the size reported after the reset is one too large. *)
-Definition c20_dup_events : list revent :=
-  [EStart []; EStartDone; EAltSync; ECount;
-   EPutBegin [c20_k 3]; EPutCommit; EPutSync; EPutBegin [c20_k 3]; EPutCommit; EPutSync;
-   EAltWrite false [c20_k 3; c20_k 3]; ECleanup; ECleanSync; EFlip; EMarkSync; ETearSync; EFinish].
-Theorem c20_reset_duplicate_size_refuted :
-  exists s, rrun 0 (ropen []) c20_dup_events = Some s /\
-    keys_of (primary s) = [c20_k 3] /\ r_size s = 2%Z.
-Proof. eexists. split; [vm_compute; reflexivity|]. vm_compute. split; reflexivity. Qed.
-Print Assumptions c20_reset_duplicate_size_refuted.
-
-(* 14. REFUTED liveness: cancelling the caller's context while the worker runs
-   opStart makes ResetCids return without ever sending opCleanup; the worker then
-   blocks forever on the response channel: no event is enabled any more (every
-   later Put/Get/Size/ResetCids/Close hangs).  The stored data stay intact
-   (theorem 9 still applies to the wedged state). *)
-Theorem c20_cancel_during_start_wedges_refuted :
-  exists s, rrun 0 (ropen []) [EStart [c20_k 2]; EStartCancel; EStartDone] = Some s /\
-    r_ph s = PWedged /\ r_rip s = true /\
-    forall e, match e with ECloseSync | EPutBegin _ | EStart _ | EClose | EPutCommit | EPutSync => rstep 0 s e = None | _ => True end.
-Proof.
-  eexists. split; [vm_compute; reflexivity|]. split; [reflexivity|]. split; [reflexivity|].
-  intros [ks| | | | |nw|c| | | | |b c| | | | | | | | | | |]; try exact I; reflexivity.
-Qed.
-Print Assumptions c20_cancel_during_start_wedges_refuted.
+(* 13. The worker is never wedged: from every reachable state of a keystore that
+   has not been closed there is a continuation that brings the worker back to the
+   idle loop with no reset in progress (in particular after a cancellation that
+   arrives while opStart runs), so every later operation can proceed. *)
+Theorem c20_worker_never_wedged :
+  forall bits_of pb evs s,
+    Forall (ev_ok bits_of) evs -> rrun pb (ropen []) evs = Some s -> r_closed s = false ->
+    exists evs' s', rrun pb s evs' = Some s' /\ r_ph s' = PIdle /\ r_wk s' = None /\ r_closed s' = false.
+Proof. exact reachable_never_wedged. Qed.
+Print Assumptions c20_worker_never_wedged.
 
 (* Non-vacuity: concrete histories meeting the hypotheses. *)
 Definition c20_bits (i : N) : bits := kb 4 i.
 Example c20_nonvacuous :
   (* part 1: a history with a fault, a restart and a crash *)
-  (let ops := [KPut [c20_k 9; c20_k 3] NoFault; KPut [c20_k 12] (FailHas 0); KRestart;
-               KDel [c20_k 3] NoFault; KCrash 1; KPut [c20_k 3; c20_k 4] FailSync] in
+  (let ops := [KPut [c20_k 9; c20_k 3; c20_k 9] NoFault; KPut [c20_k 12] (FailHas 0); KRestart;
+               KDel [c20_k 3; c20_k 3] NoFault; KCrash 1; KPut [c20_k 3; c20_k 4; c20_k 4] FailSync] in
    Forall (kop_ok c20_bits) ops /\
    map mid (stored (krun 0 2 ks_new ops)) = [9%N; 3%N; 4%N] /\ k_size (krun 0 2 ks_new ops) = 3%Z) /\
-  (* part 2: a reset with a concurrent Put in phase A and one after phase B, then Close *)
+  (* a call naming a new key twice returns it once and counts it once *)
+  (let (s', r) := ks_put 0 ks_new [c20_k 5; c20_k 5] NoFault in
+   r = Some [c20_k 5] /\ k_size s' = 1%Z /\ stored s' = [c20_k 5]) /\
+  (* part 2: a reset with a concurrent Put in phase A and a repeated one after phase B, a
+     first attempt whose marker write fails, then Close *)
   (let evs := [EPutBegin [c20_k 1]; EPutCommit; EPutSync;
+               EStart [c20_k 2]; EStartDone; EKey; EAltWrite true [c20_k 2]; EAltSync; ECount;
+               ECleanup; ECleanSync; EFlipFail; EDel [dkey 0 (c20_k 2)]; ETearSync; EFinish;
                EStart [c20_k 2; c20_k 5]; EStartDone; EKey;
                EPutBegin [c20_k 6]; EPutCommit; EPutSync;
                EAltWrite false [c20_k 6]; EKey; EAltWrite true [c20_k 2; c20_k 5]; EAltSync; ECount;
-               EPutBegin [c20_k 7; c20_k 2]; EPutCommit; EPutSync;
-               EAltWrite false [c20_k 7; c20_k 2]; ECleanup; ECleanSync; EFlip; EMarkSync;
+               EPutBegin [c20_k 7; c20_k 7; c20_k 2]; EPutCommit; EPutSync;
+               EAltWrite false [c20_k 7; c20_k 7; c20_k 2]; ECleanup; ECleanSync; EFlip; EMarkSync;
                EDel [dkey 0 (c20_k 1); dkey 0 (c20_k 6)]; EDel [dkey 0 (c20_k 7); dkey 0 (c20_k 2)];
                ETearSync; EFinish; EClose; ECloseSync] in
    Forall (ev_ok c20_bits) evs /\
    exists s, rrun 0 (ropen []) evs = Some s /\
      map mid (reopen_keys (r_j s)) = [6%N; 2%N; 5%N; 7%N] /\ reopen_size (r_j s) = 4%Z).
 Proof.
-  split.
+  split; [|split].
   - split; [|vm_compute; split; reflexivity].
     repeat (apply Forall_cons || apply Forall_nil); simpl; try exact I;
-      (split; [repeat constructor; simpl; intuition discriminate|intros k H; simpl in H; intuition subst; reflexivity]).
+      intros k H; simpl in H; intuition subst; reflexivity.
+  - vm_compute. repeat split.
   - split.
     + repeat (apply Forall_cons || apply Forall_nil); simpl; try exact I;
-        try (split; [repeat constructor; simpl; intuition discriminate|intros k H; simpl in H; intuition subst; reflexivity]);
-        try (intros k H; simpl in H; intuition subst; reflexivity);
-        try (repeat constructor; simpl; intuition discriminate).
+        intros k H; simpl in H; intuition subst; reflexivity.
     + eexists. split; [vm_compute; reflexivity|]. vm_compute. split; reflexivity.
 Qed.
